@@ -331,6 +331,12 @@ def execute(scenario, ch):
                 if a["es"] is not None and b["es"] is not None and a["es"].var_lookup is b["es"].var_lookup:
                     viol.append(V("colocated-share-table", "%s and %s share one var_lookup object" % (
                         a["tp"]["id"], b["tp"]["id"])))
+    # shared structure: the collector visits each object once; printing such a structure visits every PATH to the leaf
+    # (2^14 here, 2^64 for a structure five times the size: the application thread would never come back)
+    calls = len(ctx["globals"].get("REPR_CALLS", ()))
+    if calls > 64 * (len(cases) + 1):
+        viol.append(V("collector-work-explodes:%s" % tag, "the shared leaf of a %d-object structure was rendered %d times for "
+                      "%d snapshots" % (15 if "mk_dag" in o["off"] else 0, calls, len(cases))))
     # host differential: iterators held by the host are not advanced
     g = ctx["globals"]
     for ti, out in enumerate(ctx["outs"]):
